@@ -11,11 +11,19 @@ Ev == Rec[l]
 Devs == TraceDevs
 Chk(name, cond) == IF cond THEN TRUE ELSE PrintT(<<"FAILED", name, l>>) /\ FALSE
 
+(* edge-oriented queries: the origin / destination are edges; the search runs between the origin edge's end
+   vertex and the destination edge's start vertex (scn.src / scn.dst), and the wrapper adds the two edges with
+   zero cost and unchanged state.  When the two edges are adjacent there is no inner search: both are traversed. *)
+EdgeMode == scn.orient = "edge"
+Adjacent(ev) == ev.orient = "edge" /\ ev.odst # 0 /\ ev.E[ev.osrc][2] = ev.E[ev.odst][1]
 T_Setup == /\ Ev.ev = "Setup" /\ pc = "idle"
            /\ Chk("initial state", Ev.init_obs = Ev.init)
-           /\ Chk("estimate", HOK(Ev))
-           /\ Chk("great-circle", GcOK(Ev))
-           /\ Setup(ScnOf(Ev))
+           /\ Chk("estimate", Adjacent(Ev) \/ HOK(Ev))
+           /\ Chk("great-circle", Adjacent(Ev) \/ GcOK(Ev))
+           /\ IF Adjacent(Ev)
+              THEN /\ scn' = ScnOf(Ev) /\ pc' = "done" /\ outcome' = "ok" /\ tree' = <<>> /\ g' = <<>> /\ queue' = <<>>
+                   /\ cur' = 0 /\ lastE' = 0 /\ todo' = {} /\ iters' = 0 /\ reop' = FALSE
+              ELSE Setup(ScnOf(Ev))
 
 (* A Relax event groups what the decorators saw about one incident edge.  Only what the property      *)
 (* family depends on is compared: the frontier verdict and the last edge it was given (when the       *)
@@ -47,23 +55,47 @@ T_End == /\ Ev.ev = "End" /\ pc = "done"
          /\ outcome = "terminated" =>
                Chk("limit named", /\ Ev.msg_iter = (scn.itl >= 0 /\ iters + 1 > scn.itl)
                                   /\ Ev.msg_size = (scn.szl >= 0 /\ Cardinality(DOMAIN tree) > scn.szl))
-         /\ outcome = "ok" =>
+         /\ (outcome = "ok" /\ ~EdgeMode) =>
                /\ Chk("iterations", Ev.iters = iters)
                /\ Chk("tree", {Ev.tree[i] : i \in DOMAIN Ev.tree} = TreeRows /\ Len(Ev.tree) = Cardinality(TreeRows))
                /\ Chk("one tree", Ev.ntrees = 1)
                /\ scn.dst # 0 => /\ Chk("one route", Ev.nroutes = 1)
                                  /\ Chk("route", Walk(tree, scn.dst) # <<0>> /\ Ev.route = RouteRows)
                /\ scn.dst = 0 => Chk("no route", Ev.nroutes = 0)
-         /\ Enforce("C01") => Chk("C01 route is a contiguous walk", DoneC01)
-         /\ Enforce("C02") => Chk("C02 least cost", DoneC02)
-         /\ Enforce("C05") => Chk("C05 no-path iff unreachable / tree = reachable set", DoneC05)
+         /\ (outcome = "ok" /\ EdgeMode) =>
+               LET o == scn.osrc  d == scn.odst
+                   wrapVs == {EDst(o)} \cup (IF d = 0 THEN {} ELSE {EDst(d)})
+                   evRows == {Ev.tree[i] : i \in DOMAIN Ev.tree}
+               IN /\ Chk("one tree", Ev.ntrees = 1)
+                  \* C01: every returned tree entry records an edge that joins its parent to its own vertex
+                  /\ Chk("C01 tree entries join parent to vertex", \A r \in evRows : ESrc(r.e) = r.p /\ EDst(r.e) = r.v)
+                  /\ Chk("tree (away from the origin / destination edge ends)",
+                         {r \in evRows : r.v \notin wrapVs} = {r \in TreeRows : r.v \notin wrapVs})
+                  /\ d = 0 => Chk("no route", Ev.nroutes = 0)
+                  /\ d # 0 =>
+                       /\ Chk("one route", Ev.nroutes = 1)
+                       /\ IF EDst(o) = ESrc(d)      \* adjacent edges: both are traversed
+                          THEN LET st1 == NextSt(scn.init, 0, o) IN
+                               Chk("C01/C03 adjacent origin and destination edges",
+                                   Ev.route = <<[e |-> o, st |-> st1, acc |-> 0, trv |-> Total(scn.init, 0, o)],
+                                                [e |-> d, st |-> NextSt(st1, o, d), acc |-> AccCost(st1, o, d), trv |-> TrvCost(st1, o, d)]>>)
+                          ELSE LET inner == RouteRows
+                                   lastSt == IF inner = <<>> THEN scn.init ELSE inner[Len(inner)].st
+                               IN Chk("C01/C03 route = origin edge, searched part, destination edge",
+                                      /\ Walk(tree, scn.dst) # <<0>>
+                                      /\ Ev.route = <<[e |-> o, st |-> scn.init, acc |-> 0, trv |-> 0]>> \o inner
+                                                     \o <<[e |-> d, st |-> lastSt, acc |-> 0, trv |-> 0]>>)
+         /\ (outcome = "ok" /\ EdgeMode) => Chk("iterations (edge oriented)", Ev.iters = iters + (IF scn.odst = 0 THEN 1 ELSE IF scn.src = scn.dst THEN 1 ELSE 2))
+         /\ (Enforce("C01") /\ ~(EdgeMode /\ scn.src = scn.dst)) => Chk("C01 route is a contiguous walk", DoneC01)
+         /\ (Enforce("C02") /\ ~(EdgeMode /\ scn.src = scn.dst)) => Chk("C02 least cost", DoneC02)
+         /\ (Enforce("C05") /\ ~(EdgeMode /\ scn.src = scn.dst)) => Chk("C05 no-path iff unreachable / tree = reachable set", DoneC05)
          /\ Enforce("C10") => Chk("C10 terminated only when a limit fired", DoneC10)
-         /\ (Enforce("C04") /\ outcome = "ok" /\ scn.dst # 0) =>
+         /\ (Enforce("C04") /\ outcome = "ok" /\ scn.dst # 0 /\ scn.src # scn.dst) =>
                IF RouteTurnsOK THEN TRUE
                ELSE IF ~Fwd /\ RouteTurnsAsCoded /\ "F-C04-a" \in Devs THEN Known("C04", "F-C04-a")
                ELSE IF reop /\ "F-C04-b" \in Devs THEN Known("C04", "F-C04-b")
                ELSE Chk("C04 route contains a restricted turn", FALSE)
-         /\ (Enforce("C03") /\ outcome = "ok" /\ scn.dst # 0) =>
+         /\ (Enforce("C03") /\ outcome = "ok" /\ scn.dst # 0 /\ scn.src # scn.dst) =>
                IF RouteSumsOK THEN TRUE
                ELSE IF reop /\ ~(scn.bad = {} /\ NoAccess) /\ "F-C03-a" \in Devs THEN Known("C03", "F-C03-a")
                ELSE Chk("C03 route state/cost is not the sum over its edges", FALSE)
